@@ -143,10 +143,23 @@ def check(ctx) -> Result:
     res.frozen("state[2*j:2*j+2]" in t and "enumerate(measurement.split(','))" in t and "expectation/n_counts" in t and "expectation+=multiplier*counts" in t, "K-eigenvalue-convention", "_calculate_expectation_value:indexing", ev.site(), ev.qualname,
                "qubit j is read from modes (2j, 2j+1); weighted mean over counts", "expectation-value bookkeeping idiom not recognised", construct="indexing")
     # I -> Z reuse
-    rq = ctx.func(UT, "_get_required_tomo_measurements")
+    from ..inline import with_helpers as _whq
+    rq = _whq(ctx, ctx.func(UT, "_get_required_tomo_measurements"))
     dc = [d for d in walk_no_nested(rq.node) if isinstance(d, ast.DictComp)]
-    okr = bool(dc) and src(dc[0].value).replace("'", '"') == 'c.replace("I", "Z")' and src(dc[0].key) == "c" and not dc[0].generators[0].ifs
-    res.add(okr, "K-i-to-z-reuse", "_get_required_tomo_measurements", rq.site(), rq.qualname, "every setting maps to itself with I replaced by Z", "the reuse map is not replace('I', 'Z') over all settings", construct=src(dc[0]) if dc else "")
+    okr = False
+    if dc:
+        kv = src(dc[0].key)
+        okr = isinstance(dc[0].key, ast.Name) and src(dc[0].value).replace("'", '"') == f'{kv}.replace("I", "Z")' and not dc[0].generators[0].ifs and src(dc[0].generators[0].target) == kv
+    if not dc:
+        res.frozen(False, "K-i-to-z-reuse", "_get_required_tomo_measurements", rq.site(), rq.qualname, "", "reuse map (dictionary comprehension over all settings) not recognised", construct="")
+    else:
+        other_repl = isinstance(dc[0].value, ast.Call) and isinstance(dc[0].value.func, ast.Attribute) and dc[0].value.func.attr == "replace" and not okr
+        if okr:
+            res.ok("K-i-to-z-reuse", "_get_required_tomo_measurements", rq.site(dc[0]), rq.qualname, "every setting maps to itself with I replaced by Z")
+        elif other_repl or dc[0].generators[0].ifs:
+            res.bad("K-i-to-z-reuse", "_get_required_tomo_measurements", rq.site(dc[0]), rq.qualname, "the reuse map is not replace('I', 'Z') over all settings", construct=src(dc[0]))
+        else:
+            res.frozen(False, "K-i-to-z-reuse", "_get_required_tomo_measurements", rq.site(dc[0]), rq.qualname, "", "value of the reuse map not recognised", construct=src(dc[0]))
     STc = ctx.ix.module(ST).classes.get("StateTomography")
     pr = STc.methods["process"]
     tp = src(pr.node).replace(" ", "")
